@@ -1064,7 +1064,7 @@ func Send[T any](desc string, ch chan<- T, v T) {
 	ch <- v
 }
 
-func Close[T any](desc string, ch chan T) {
+func Close[T any](desc string, ch chan<- T) {
 	Op("close "+desc, chanObj(ch), WR|REL, nil)
 	MarkClosed(ch)
 	close(ch)
@@ -1080,9 +1080,9 @@ func MarkClosed(ch any) {
 	X.closed[p] = ch
 }
 
-func Len[T any](desc string, ch chan T) int {
+func Len(desc string, ch any) int {
 	Op("len "+desc, chanObj(ch), RD, nil)
-	return len(ch)
+	return reflect.ValueOf(ch).Len() // (any channel direction)
 }
 
 // SortedKeys gives a deterministic iteration order for maps.
